@@ -12,6 +12,7 @@ import (
 	"time"
 
 	"github.com/attestantio/dirk/core"
+	"github.com/attestantio/dirk/rules"
 	"github.com/attestantio/dirk/services/checker"
 	"github.com/herumi/bls-eth-go-binary/bls"
 )
@@ -39,7 +40,7 @@ func (d duty) String() string {
 	return fmt.Sprintf("block slot=%d body=%x", d.Prop.Slot, d.Prop.Body[:2])
 }
 
-func nodeStore(ctx context.Context, n *Node, shareKey []byte) (*StoreView, error) {
+func nodeStore(ctx context.Context, n *Node, shareKey []byte, others ...[]byte) (*StoreView, error) {
 	raw, err := n.Rules.VerifRaw(ctx)
 	if err != nil {
 		return nil, err
@@ -49,6 +50,11 @@ func nodeStore(ctx context.Context, n *Node, shareKey []byte) (*StoreView, error
 		id := 100000 + int(binary.LittleEndian.Uint32(k[:4]))%100000
 		if sameBytes(k[:48], shareKey) {
 			id = 1
+		}
+		for oi, o := range others {
+			if sameBytes(k[:48], o) {
+				id = 2 + oi
+			}
 		}
 		switch k[48] {
 		case 0x02:
@@ -105,6 +111,18 @@ func cmdClusterDuties(args []string) int {
 		for _, id := range gr.Parts {
 			shareKey[id] = gr.Accounts[id].sharePub()
 		}
+		// a second distributed account, already far ahead, to fill batches with an entry that is refused
+		acctW := fmt.Sprintf("Wallet 3/w%d", ci)
+		grW := &dkgRun{IDs: cfg.ids, Initiator: cfg.ids[0], N: cfg.n, T: cfg.t, Acct: acctW}
+		runGeneration(ctx, c, grW)
+		shareKeyW := map[uint64][]byte{}
+		if grW.Err == nil {
+			for _, id := range grW.Parts {
+				shareKeyW[id] = grW.Accounts[id].sharePub()
+				far := &AttData{Dom: mkDomain([]byte{1, 0, 0, 0}, 5), Slot: 32000000, Idx: 1, BBR: fill32(9), Src: &Checkpoint{Epoch: 999999, Root: fill32(1)}, Tgt: &Checkpoint{Epoch: 1000000, Root: fill32(9)}}
+				_, _ = c.Nodes[id].Signer.SignBeaconAttestation(ctx, creds, acctW, nil, far.toRules())
+			}
+		}
 		var lines []string
 		epoch := uint64(10)
 		for round := 0; round < rounds; round++ {
@@ -134,16 +152,18 @@ func cmdClusterDuties(args []string) int {
 			stats["pair."+kind]++
 			// routing: each duty to a subset (often everyone), with repeats, shuffled together
 			type send struct {
-				node uint64
-				d    int
+				node  uint64
+				d     int
+				mode  int  // 0 by name, 1 by share key, 2 by share key with a trailing byte
+				batch bool // through the batch endpoint, followed by an entry that is refused
 			}
 			var plan []send
 			for di := 0; di < 2; di++ {
 				for _, id := range gr.Parts {
 					if rng.Chance(85) {
-						plan = append(plan, send{id, di})
+						plan = append(plan, send{id, di, []int{0, 0, 1, 2}[rng.Intn(4)], rng.Chance(30)})
 						if rng.Chance(25) {
-							plan = append(plan, send{id, di})
+							plan = append(plan, send{id, di, []int{0, 1, 2}[rng.Intn(3)], rng.Chance(30)})
 						}
 					}
 				}
@@ -177,20 +197,58 @@ func cmdClusterDuties(args []string) int {
 			deliver := func(s send, record bool) {
 				n := c.Nodes[s.node]
 				d := duties[s.d]
+				var batchObs []Obs
 				var pre, post *StoreView
 				if record {
-					pre, _ = nodeStore(ctx, n, shareKey[s.node])
+					pre, _ = nodeStore(ctx, n, shareKey[s.node], shareKeyW[s.node])
 				}
 				var res core.Result
 				var sig []byte
-				op := &Op{Client: "client1", IP: "10.0.0.1", Addrs: []Addr{{Name: acct}}}
-				if d.Att != nil {
-					op.Kind, op.Atts = KAttest, []AttData{*d.Att}
-					res, sig = n.Signer.SignBeaconAttestation(ctx, creds, acct, nil, d.Att.toRules())
-				} else {
-					op.Kind, op.Props = KPropose, []PropData{*d.Prop}
-					res, sig = n.Signer.SignBeaconProposal(ctx, creds, acct, nil, d.Prop.toRules())
+				// addressed by name, by the share public key, or by that key followed by an extra byte
+				ad := Addr{Name: acct}
+				name, key := acct, []byte(nil)
+				switch s.mode {
+				case 1:
+					ad = Addr{Key: shareKey[s.node], KeyID: 1, HasKey: true}
+					name, key = "", shareKey[s.node]
+				case 2:
+					ad = Addr{Key: shareKey[s.node], KeyID: 1, HasKey: true, Pad: []byte{0xab}}
+					name, key = "", append(append([]byte{}, shareKey[s.node]...), 0xab)
 				}
+				op := &Op{Client: "client1", IP: "10.0.0.1", Addrs: []Addr{ad}}
+				nres := 1
+				switch {
+				case d.Att != nil && s.batch && shareKeyW[s.node] != nil:
+					// the duty inside a batch whose other entry (the second account, far ahead) is refused
+					stale := AttData{Dom: d.Att.Dom, Slot: 64, Idx: 1, BBR: fill32(7), Src: &Checkpoint{Epoch: 1, Root: fill32(1)}, Tgt: &Checkpoint{Epoch: 2, Root: fill32(7)}}
+					op.Kind, op.Addrs, op.Atts = KAttests, []Addr{ad, {Name: acctW}}, []AttData{*d.Att, stale}
+					rs, sigs := n.Signer.SignBeaconAttestations(ctx, creds, []string{name, acctW}, [][]byte{key, nil}, []*rules.SignBeaconAttestationData{d.Att.toRules(), stale.toRules()})
+					nres = len(rs)
+					if len(rs) > 0 {
+						res = rs[0]
+						if len(sigs) > 0 {
+							sig = sigs[0]
+						}
+					}
+					if record {
+						var obs []Obs
+						for i := range rs {
+							l := 0
+							if i < len(sigs) {
+								l = len(sigs[i])
+							}
+							obs = append(obs, Obs{State: rs[i], SigLen: l})
+						}
+						batchObs = obs
+					}
+				case d.Att != nil:
+					op.Kind, op.Atts = KAttest, []AttData{*d.Att}
+					res, sig = n.Signer.SignBeaconAttestation(ctx, creds, name, key, d.Att.toRules())
+				default:
+					op.Kind, op.Props = KPropose, []PropData{*d.Prop}
+					res, sig = n.Signer.SignBeaconProposal(ctx, creds, name, key, d.Prop.toRules())
+				}
+				_ = nres
 				valid := false
 				var bs bls.Sign
 				if res == core.ResultSucceeded && len(sig) > 0 {
@@ -214,9 +272,12 @@ func cmdClusterDuties(args []string) int {
 					stats["requests.signed"]++
 				}
 				if record {
-					post, _ = nodeStore(ctx, n, shareKey[s.node])
+					post, _ = nodeStore(ctx, n, shareKey[s.node], shareKeyW[s.node])
 					caseID++
 					obs := []Obs{{State: res, SigLen: len(sig)}}
+					if batchObs != nil {
+						obs = batchObs
+					}
 					lines = append(lines, fmt.Sprintf(" IC %s %s %s %s %s", coqN(caseID), coqStore(pre), coqOp(op), coqObs(obs), coqStore(post)))
 					idx[fmt.Sprint(caseID)] = fmt.Sprintf("cluster %v t=%d account %q round %d (%s): instance %d asked for %s -> %s pre=%s post=%s", cfg.ids, cfg.t, acct, round, kind, s.node, d, res, fmtStore(pre), fmtStore(post))
 				}
@@ -278,8 +339,8 @@ func cmdClusterDuties(args []string) int {
 		// the per-instance steps against the single-instance model (every instance's own share key is key 1)
 		var b strings.Builder
 		b.WriteString("From DV Require Import Corr.CheckInst.\nLocal Open Scope Z_scope.\nLocal Open Scope string_scope.\n")
-		fmt.Fprintf(&b, "Definition cfg : scfg := mkcfg %s [] [AC \"Wallet 3\" %s 1%%N true true] [(\"client1\", [\"Wallet 1\"; \"Wallet 3\"])].\n", coqBool(cf.g63), coqStr(strings.SplitN(acct, "/", 2)[1]))
-		b.WriteString("Definition keys : list N := [1%N].\n")
+		fmt.Fprintf(&b, "Definition cfg : scfg := mkcfg %s [] [AC \"Wallet 3\" %s 1%%N true true; AC \"Wallet 3\" %s 2%%N true true] [(\"client1\", [\"Wallet 1\"; \"Wallet 3\"])].\n", coqBool(cf.g63), coqStr(strings.SplitN(acct, "/", 2)[1]), coqStr(strings.SplitN(acctW, "/", 2)[1]))
+		b.WriteString("Definition keys : list N := [1%N; 2%N].\n")
 		fmt.Fprintf(&b, "Definition cases : list icase := [\n%s].\n", strings.Join(lines, ";\n"))
 		b.WriteString("Definition M := Eval vm_compute in mismatches (check_safe cfg keys) cases.\nPrint M.\n")
 		b.WriteString("Definition D := Eval vm_compute in diag cfg keys (check_safe cfg keys) cases.\nPrint D.\n")
